@@ -3,7 +3,7 @@
 //
 // Line protocol (first token "coinswap"):
 //
-//	reset  std= fee= tax= ufee= pcf=<amt>:<denom> now=<ns> blocked=<names> sup0=<denom>:<amt>,.. fund=<acct>/<denom>:<amt>,..
+//	reset  std= fee= tax= ufee= pcf=<amt>:<denom> now=<ns> blocked=<names> fund=<acct>/<denom>:<amt>,..
 //	block  t=<unix ns>
 //	swap   sender= recv= in=<amt>:<denom> out=<amt>:<denom> buy=0|1 deadline=<s>
 //	add    sender= max=<amt>:<denom> std=<amt> minl=<amt> deadline=
@@ -18,7 +18,7 @@
 // Observation: "<ok|rej|panic> e=<err class> resp=<coins> <state>" where state is the
 // canonical projection: block time, params, pool registry, every non-zero balance of every
 // universe account (A0..A3, pool escrows P1..P6, module account M, fee collector FC) and
-// every non-zero supply of the universe denoms.
+// every non-zero supply of the universe denoms (relative to the application's genesis supply).
 package coinswap
 
 import (
@@ -175,6 +175,9 @@ func (r *R) state(ctx sdk.Context) string {
 	sort.Strings(bals)
 	for _, d := range append(append([]string{}, r.denoms...), extra...) {
 		s := r.env.Supply(ctx, d)
+		if b, ok := r.sup0[d]; ok {
+			s = s.Sub(b) // supply is reported relative to the application's genesis supply
+		}
 		if !s.IsZero() {
 			sups = append(sups, d+":"+s.String())
 		}
@@ -257,12 +260,6 @@ func (r *R) ResetLine(g *hx.Rng) string {
 			}
 		}
 	}
-	var sup []string
-	for _, d := range r.denoms {
-		if r.sup0[d].IsPositive() {
-			sup = append(sup, d+":"+r.sup0[d].String())
-		}
-	}
 	tax := []string{"400000000000000000", "1", "999999999999999999", "333333333333333333"}[g.Pick(5, 1, 1, 2)]
 	now := int64(1700000000+g.Intn(1000)) * 1000000000
 	if g.Chance(1, 4) {
@@ -270,7 +267,7 @@ func (r *R) ResetLine(g *hx.Rng) string {
 	}
 	return "coinswap reset " + hx.KV("std", std, "fee", r.pickFee(g), "tax", tax, "ufee", r.pickUfee(g),
 		"pcf", pcfAmt.String()+":"+pcfDenom, "now", now, "blocked", "FC",
-		"sup0", hx.Dash(strings.Join(sup, ",")), "fund", hx.Dash(strings.Join(funds, ",")))
+		"fund", hx.Dash(strings.Join(funds, ",")))
 }
 
 func (r *R) Reset(ctx sdk.Context, line string) (sdk.Context, string) {
